@@ -14,7 +14,7 @@ import time
 import traceback
 
 VERIF = os.path.dirname(os.path.dirname(os.path.abspath(__file__)))
-REPO = "/repo"
+REPO = os.environ.get("VERIF_REPO", "/repo")
 
 MAX_VIOLATIONS_PER_SHARD = 40
 MAX_REPLAY_FILES = 12
